@@ -153,11 +153,43 @@ def resStr (r : Except Err (List Sexp)) : String :=
   | .ok xs => "ok " ++ formsStr xs
   | .error e => "err " ++ errStr e
 
-def valRes (r : Except Err (List Sexp)) : String :=
+/-! steel rejects a unit at COMPILE time when its expansion still contains an ellipsis token outside `quote`
+(UnexpectedToken / BadSyntax) or refers to an identifier that is neither bound nor a global (FreeIdentifier) — also
+in code that is never evaluated — in some contexts (inside procedure bodies) and not in others.  The model's value
+function stays lazy; the driver reports the static defect of M's expansion as `staticM` so that the check can
+recognise this way of failing. -/
+
+mutual
+partial def ellOutsideQuote : Sexp → Bool
+  | .kw .ellipsis => true
+  | .list (.kw .quote :: _) _ => false
+  | .list xs _ => xs.any ellOutsideQuote
+  | _ => false
+end
+
+partial def refsOutsideQuote : Sexp → List Name
+  | .id n _ => if n.base == "%" || n.base == "%g" then [] else [n]
+  | .list (.kw .quote :: _) _ => []
+  | .list xs _ => xs.flatMap refsOutsideQuote
+  | _ => []
+
+def staticErr (xs : List Sexp) : Option Err :=
+  let cs := canonProg xs
+  if cs.any ellOutsideQuote then some .badSyntax
+  else
+    let known := definedNames cs ++ builtinGlobals
+    if (cs.flatMap refsOutsideQuote).any (fun n => !known.contains n) then some .freeId else none
+
+def evalChecked (strict : Bool) (xs : List Sexp) : Except Err Val :=
+  match (if strict then staticErr xs else none) with
+  | some e => .error e
+  | none => evalProg 20000 xs
+
+def valRes (r : Except Err (List Sexp)) (strict : Bool := false) : String :=
   match r with
   | .error e => "err " ++ errStr e
   | .ok xs =>
-      match evalProg 20000 xs with
+      match evalChecked strict xs with
       | .ok v => "ok " ++ valStr v
       | .error e => "err " ++ errStr e
 
@@ -172,7 +204,7 @@ def runProgram (forms : List Sexp) (withVals : Bool) : String :=
     | .error e1, .error e2 => if errStr e1 == errStr e2 then "err-both" else "false"
     | _, _ => "false"
   let base := s!"M={resStr mforms} ## S={resStr rs} ## alpha={alpha} ## class={cls}"
-  if withVals then base ++ s!" ## valM={valRes mforms} ## valS={valRes rs}" else base
+  if withVals then base ++ s!" ## valM={valRes mforms} ## valS={valRes rs} ## staticM={match mforms with | .ok xs => (match staticErr xs with | some e => errStr e | none => "none") | .error _ => "none"}" else base
 
 partial def loop (h : IO.FS.Stream) (f : String → String) : IO Unit := do
   let l ← h.getLine
@@ -226,11 +258,11 @@ def isDefForm : Sexp → Bool
   | _ => false
 
 /-- result of one piece on top of the accumulated forms -/
-def pieceRes (r : Except Err (List Sexp)) (onlyDefs : Bool) : String × Bool :=
+def pieceRes (r : Except Err (List Sexp)) (onlyDefs : Bool) (strict : Bool := false) : String × Bool :=
   match r with
   | .error e => ("err " ++ errStr e, false)
   | .ok xs =>
-      match evalProg 20000 xs with
+      match evalChecked strict xs with
       | .ok v => (if onlyDefs then "ok" else "ok " ++ valStr v, true)
       | .error e => ("err " ++ errStr e, false)
 
